@@ -13,7 +13,14 @@ READY = True
 RULE = ("cases drawn from one PRNG (VERIF_SEED): a random scope program (root body of statements: new signal, new stored "
         "value, new raw ArenaItem<T, S> (24 (type, storage) pairs: Copy scalars, tuples, arrays, unit, fn pointers, "
         "&'static str, Option<char>, String, Box, Arc, Rc, Cell in SyncStorage and LocalStorage, via ArenaItem::new / "
-        "new_local / new_with_storage; one kind is favoured per case so that freed slots are reused by the same type), on_cleanup, provide_context(ty, v), use_context(ty), child owner {body}, Effect::new {body}, "
+        "new_local / new_with_storage; one kind is favoured per case so that freed slots are reused by the same type), typed "
+        "arena handles made by their own constructors and conversions (signal(), read_only() / write_only(), RwSignal / "
+        "ReadSignal / WriteSignal / StoredValue from their Arc forms, new_local, store_value, Signal::derive / stored: one or "
+        "two arena entries each), on_cleanup / Owner::on_cleanup, take_context, update_context, use_context / with_context / "
+        "expect_context, child owners made by Owner::new + with, Owner::current().child() or Owner::new + set, every Effect "
+        "(new, new_sync, new_isomorphic, watch, watch immediate, watch_sync, create_effect), RenderEffect (new, "
+        "new_isomorphic, new_with_value), ImmediateEffect (new, new_mut, new_isomorphic, new_scoped) and Memo (new, "
+        "new_with_compare, new_owning, from ArcMemo) constructor, on_cleanup, provide_context(ty, v), use_context(ty), child owner {body}, Effect::new {body}, "
         "Effect::new_isomorphic {body}, Effect::watch {body as dependency fn}, RenderEffect {body}, ImmediateEffect {body}, memo {body}; nesting "
         "depth <= 3) run under a fresh root Owner, followed by a history of operations chosen against a Python simulation "
         "of the live entities: re-run / cleanup / drop-handle of any user scope at any depth, notify effect, notify memo, "
@@ -38,13 +45,16 @@ TRUSTED = [
     "Arc/Weak reference counting of Owner (one strong holder per owner: the harness, the effect's task, the memo, or the "
     "ImmediateEffect's inner state, i.e. its handle); a RenderEffect has no arena entry and lives as long as its handle; "
     "the effect's notification path (ArcTrigger -> EffectInner::mark_dirty -> channel flag -> waker) as three flags; "
-    "memo dirtiness as one flag",
+    "memo dirtiness as one flag; Effect::stop as the same 'Sender gone' flag as a dropped RenderEffect handle",
 ]
 ASSUMPTIONS = [
     "the model's two ghost flags stay false on every generated case (checked: the model would print -99 / -98 and "
     "mismatch): err = a fuel bound was hit (proved impossible for the release cascade; for the scheduler of RunAll it "
     "is a hypothesis of the theorems), unowned = a value was allocated with no live current owner (hypothesis of no_leak)",
     "single-threaded, atomic polls; cleanup closures do not themselves create reactive nodes or touch owners",
+    "ImmediateEffect::new_scoped (the creating scope holds the effect and drops it in one of its cleanups) is not in the Coq "
+    "model: programs containing it are judged by the Python oracle alone (compared, not proved)",
+    "Owner::child() copies the parent's paused flag; no effect owner is made that way, so the copy is not observable and not modelled",
     "reference-count overflow / slotmap version wrap-around (2^31 reuses of one slot) do not occur",
     "a cleanup releases the child scopes it reaches: a child owner whose handle the program keeps and re-uses after its "
     "parent was cleaned up is an independent scope from then on (the parent's children list was taken)",
